@@ -6,6 +6,15 @@ from harness.legs import cfg_text, leg_m, leg_mutant, leg_r, leg_t
 from harness.vloop import VLoop
 
 SPEC = "Queue"
+MANIFEST = dict(
+    text="Queue.tla models AsyncQueue + its consumer at the grain of one action per public call / loop wake-up; "
+         "TLC checks NoLoss, DrainedAll, AfterFinish, ReasonStable, GotAppendOnly and liveness EventuallyWoken over "
+         "all operation sequences within the bounds; EVERY edge of that state graph is replayed into the real "
+         "AsyncQueue (observation must equal the spec successor's obs, hidden buffer exposed by a Drain edge from "
+         "every state) and random length-40 histories recorded from the real queue are validated by QueueTrace.tla.",
+    technique="TLA+ spec + TLC exhaustive model checking; edge-complete graph replay into the implementation; "
+              "batch trace validation (QueueTrace.tla)",
+    design="5/C17")
 INVS = ["TypeOK", "NoLoss", "DrainedAll", "AfterFinish", "WaiterSane"]
 PROPS = ["ReasonStable", "GotAppendOnly"]
 ACTIONS = ["Enqueue", "Finish", "StartReceive", "CancelRequest", "Wake", "Drain"]
